@@ -52,6 +52,7 @@ def token_sets(fx):
 
 
 def run(res, tier):
+    from . import sm_state
     fx = common.load_units(res, ['regex/StringMatcher.cpp'], fn_regex=r'^muscle::(StringMatcher::|IsRegexToken|EscapeRegexTokens|RemoveEscapeChars|HasRegexTokens|CanWildcardStringMatchMultipleValues)')
     res.functions_analysed = sum(1 for f in fx.funcs.values() if f.full)
     tf, always, first = token_sets(fx)
@@ -152,6 +153,8 @@ def run(res, tier):
            how='covered %d characters' % len(covered), key='ESCAPE-INJECTION|%s|%s' % (f.q, ''.join(missing)),
            message='the translator copies "\\c" verbatim for c in %s, which glibc regcomp(REG_EXTENDED) reads as an operator: pattern "\\s" matches " " instead of "s", "\\`abc" matches "abc" although the '
                    'pattern is reported unique' % missing)
+    sm_state.regex_valid_rule(res, fx)
+    sm_state.ranges_reset_rule(res, fx)
     res.explanation = ('Static decision of two table-agreement clauses of C15: the special-character tables are extracted from the resolved AST (comparisons against str[0], the cases of the translation switch and '
                        'whether they add an escaping backslash, the cases of IsRegexToken and what each returns) and compared with each other and with the fixed POSIX-ERE metacharacter set; the escape branch of the '
                        'translator is required to drop the backslash for the characters where GNU regex defines a backslash operator. Matching semantics in general are not decided.')
